@@ -323,3 +323,16 @@ mod test {
         assert!(u0 % (1u128 << 64) != 0); // vanishingly small false positive prob
     }
 }
+
+#[cfg(falcon_rust_verif)]
+pub(crate) mod verif_access {
+    pub(crate) fn base_sampler(bytes: [u8; 9]) -> i16 {
+        super::base_sampler(bytes)
+    }
+    pub(crate) fn approx_exp(x: f64, ccs: f64) -> u64 {
+        super::approx_exp(x, ccs)
+    }
+    pub(crate) fn ber_exp(x: f64, ccs: f64, random_bytes: [u8; 7]) -> bool {
+        super::ber_exp(x, ccs, random_bytes)
+    }
+}
